@@ -121,6 +121,12 @@ def split_template(rnd: random.Random, nodes: List[Dict[str, Any]], base_name: s
                             child.append({"t": "block", "name": bn, "a": [{"t": "super"}, e]})
                     nest([x for x in kids if x["t"] != "block"])
     nest([b for b in base if b["t"] != "block"] + [x for b in base if b["t"] == "block" for x in b["a"]])
+    # an {% include %} is a family of its own: a block of the included template that bears the name of a
+    # block overridden by the child keeps its own content (Django isolates the render context per template)
+    if child and rnd.random() < 0.35:
+        bn = rnd.choice(child)["name"]
+        tpls.append({"name": inc_name, "a": [{"t": "block", "name": bn, "a": [{"t": "text", "id": "INCOWN"}]}]})
+        base.insert(rnd.randrange(len(base) + 1), {"t": "include", "name": inc_name})
     tpls.append({"name": base_name, "a": base})
     return base_name, child
 
@@ -387,6 +393,63 @@ def run(tier: str) -> int:
                         "deviation and are not generated; block tags have balanced quotes and no quoted closer",
                         "templates are served by the locmem loader"]
     return chk.finish()
+
+
+def selftest(tier: str) -> int:
+    """In-process mutation probes (never /repo)."""
+    from contextlib import contextmanager
+    from .core import run_probes
+    boot.setup()
+    import django.template.base as tb
+    import django_components.util.django_monkeypatch as mp
+    import django_components.component as dc
+
+    @contextmanager
+    def patch(obj, name, new):
+        old = getattr(obj, name)
+        setattr(obj, name, new)
+        try:
+            yield
+        finally:
+            setattr(obj, name, old)
+
+    def render_context_never_isolated():
+        # the patched Template.render forgets the "not a component" default
+        cur = tb.Template.render
+
+        def render(self, context, *a, **kw):
+            had = hasattr(self, "_djc_is_component_nested")
+            if not had:
+                self._djc_is_component_nested = True
+            try:
+                return cur(self, context, *a, **kw)
+            finally:
+                if not had:
+                    del self._djc_is_component_nested
+        return patch(tb.Template, "render", render)
+
+    def render_leaves_a_render_context_layer():
+        cur = tb.Template.render
+
+        def render(self, context, *a, **kw):
+            out = cur(self, context, *a, **kw)
+            context.render_context.push()
+            return out
+        return patch(tb.Template, "render", render)
+
+    def lexer_drops_whitespace_only_text():
+        orig = mp.parse_template
+
+        def pt(src):
+            return [t for t in orig(src) if not (t.token_type.name == "TEXT" and not t.contents.strip())]
+        return patch(mp, "parse_template", pt)
+
+    # (a probe forcing component / fill templates to an isolated render context lands entirely inside the
+    # shape-keyed known findings about blocks in component bodies and is therefore not listed)
+    return run_probes(PID, [("render-context-never-isolated", render_context_never_isolated),
+                            ("render-leaves-a-render-context-layer", render_leaves_a_render_context_layer),
+                            ("lexer-drops-whitespace-only-text", lexer_drops_whitespace_only_text)],
+                      lambda chk: body(chk, n_stock=1200, n_fam=1200, deep=3))
 
 
 def replay(path: str) -> int:
